@@ -209,7 +209,7 @@ HARNESSES = [
     H('H-routes', h_routes, quick=[(1, k) for k in range(10)] + [(2, 0), (2, 2), (2, 3), (2, 9)], thorough=[(1, k) for k in range(10)] + [(2, k) for k in (0, 1, 2, 3, 4, 6, 9)], float_model='R', scripted=True,
       cover=['a poisoned global leaf is overridden per call', 'unknown key'],
       doc='2-run: per-call dictionary over a poisoned global vs edited global: same chunk parameters, tables, messages; unknown keys warn once and add nothing'),
-    H('H-routes-group', h_routes_group, quick=[('001', 2), ('001', 3), ('001', 1)], thorough=[(sh, k) for sh in ('001', '011', '0012') for k in (1, 2, 3, 4, 5)],
+    H('H-routes-group', h_routes_group, quick=[('001', 2), ('001', 3), ('001', 1)], thorough=[(sh, k) for sh in ('001', '011') for k in (1, 2, 3, 4, 5)],
       float_model='R', scripted=True, cover=['a bundle of overlapping slices'],
       assumptions=['post-slicing state constructed by injecting slice ids after the real constructor; per-bundle clustering answers an arbitrary partition'],
       doc='2-run from a post-slicing state with a bundle of overlapping slices: grouping and layering read the chunk parameters only'),
